@@ -341,7 +341,9 @@ def fix(e):
 # may also end in a backslash without continuing on the next line
 COMMENT_TEXTS = ["", " c", " G | 0", " \"q\"", "  tab\there", " é", " page\x0cbreak Vac | 3", " sep\u2028Vac | 3",
                  " nel\x85G | 1", " vt\x0bx", " fs\x1cx", " ps\u2029 G | 2", " wrapped \\", "\\", " nbsp\u00a0here",
-                 " zero\u200bwidth", " bom\ufeff"]
+                 " zero\u200bwidth", " bom\ufeff",
+                 # an odd number of double quotes inside a comment pairs with nothing
+                 " beam waist 5\" from the source", " \"", " say \"hi", " a \"b\" c \"", " it's 3' 4\" long"]
 
 
 class Layout:
@@ -355,6 +357,12 @@ class Layout:
         self.tab = tab
         self.comments = comments
         self.blank = blank
+
+    def nl(self):
+        """the line end: one style for the whole text, or (newline="mixed") chosen line by line"""
+        if self.newline == "mixed":
+            return self.rng.choice(["\n", "\r\n", "\r"]) if self.rng is not None else "\n"
+        return self.newline
 
     def sp(self, mandatory=True):
         """spaces at a token boundary: 1-3 where a space is written, 0-3 where it is optional"""
@@ -379,7 +387,7 @@ class Layout:
                 s += " " * self.rng.randrange(1, 4)
             if self.comments and self.rng.random() < 0.15:
                 s += "#" + self.rng.choice(COMMENT_TEXTS)
-        return s + self.newline
+        return s + self.nl()
 
     def blank_lines(self, allow=True):
         """blank / comment-only lines between items"""
@@ -389,11 +397,11 @@ class Layout:
         while self.rng.random() < 0.2:
             r = self.rng.random()
             if r < 0.5:
-                s += self.newline
+                s += self.nl()
             elif r < 0.75 and self.comments:
-                s += "# " + self.rng.choice(["comment", "name x", "1, 2", ""] + COMMENT_TEXTS) + self.newline
+                s += "# " + self.rng.choice(["comment", "name x", "1, 2", ""] + COMMENT_TEXTS) + self.nl()
             else:
-                s += " " * self.rng.randrange(1, 4) + self.newline
+                s += " " * self.rng.randrange(1, 4) + self.nl()
         return s
 
 
